@@ -96,6 +96,10 @@ class EqvDomain(EventsMixin, Domain):
     return INV_E
 
   def summary(self, target, args, kwargs, node, st):
+    if target.key == 'base_metric.MahalanobisMixin.pair_distance':
+      # the learned distance of a pair: translation invariant and symmetric
+      # in the two points (that is C01's derivation, not repeated here)
+      return INV_E
     if target.key == '_util.check_input':
       # value identity (justified by C05/C06's validator rules)
       x = args[0] if args else kwargs.get('input_data')
@@ -167,6 +171,12 @@ class EqvDomain(EventsMixin, Domain):
     elif isinstance(op, ast.Pow) and pl == 'O' and pr == 'E':
       c = r.const()
       p = 'E' if isinstance(c, int) and c % 2 == 0 else 'X'
+    elif isinstance(pl, tuple) and isinstance(pr, tuple):
+      p = ('S', 'mix')     # slots of different pairs combined
+    elif isinstance(pl, tuple) and pr == 'E':
+      p = pl               # still specific to one slot
+    elif isinstance(pr, tuple) and pl == 'E':
+      p = pr
     else:
       p = 'X'
     return (t, p)
@@ -527,5 +537,10 @@ class EqvDomain(EventsMixin, Domain):
       ps = [pa(x) for x in _all(val)]
       t = 'Inv' if all(x == 'Inv' for x in ts) else (
           'Dep' if 'Dep' in ts else 'Unk' if 'Unk' in ts else 'Dep')
-      p = 'E' if all(x == 'E' for x in ps) else 'X'
+      if all(x == 'E' for x in ps):
+        p = 'E'
+      elif any(x == 'O' or isinstance(x, tuple) for x in ps):
+        p = 'O'          # an odd / slot-specific quantity reaches the sink
+      else:
+        p = 'X'          # not derivable
       self.sinks.append((attr, t, p, self.site(node)))
